@@ -384,11 +384,36 @@ theorem ord_indexStep (i : Int) (n : Node) (c : Ctx) : Ord (indexStep i n c).1 n
   · exact ord_nil _ _
   · exact ord_nil _ _
 
+theorem anchorGo_sub (an : Str) (c : Ctx) : ∀ (items : List Node) (i : Nat),
+    (anchorKids.go an c items i).flatMap sub = addrsAll.addrsSeq c.addr items i := by
+  intro items
+  induction items with
+  | nil => intro i; rfl
+  | cons n ns ih => intro i; simp [anchorKids.go, addrsAll.addrsSeq, sub, Ctx.child, ← ih]
+
+theorem anchorMap_sub (an : Str) (c : Ctx) : ∀ (es : List (Key × Node)),
+    (es.map (fun kv => (kv.2, c.child (.key kv.1) (.key kv.1) (anchorSection an)))).flatMap sub
+      = addrsAll.addrsMap c.addr es := by
+  intro es
+  induction es with
+  | nil => rfl
+  | cons kv es ih =>
+    obtain ⟨k, v⟩ := kv
+    simp only [List.map_cons, List.flatMap_cons, addrsAll.addrsMap] at ih ⊢
+    rw [ih]
+    simp [sub, Ctx.child]
+
+theorem anchorKids_sub (an : Str) (n : Node) (c : Ctx) :
+    ((anchorKids an n c).flatMap sub).Sublist (addrsBelow n c.addr) := by
+  cases n with
+  | scalar a v => simp [anchorKids]
+  | set a ms => simp [anchorKids]
+  | seq a items => simp [anchorKids, addrsBelow, addrsAll, anchorGo_sub]
+  | map a es => simp [anchorKids, addrsBelow, addrsAll, anchorMap_sub]
+
 theorem ord_anchorStep (a : Str) (n : Node) (c : Ctx) : Ord (anchorStep a n c).1 n c := by
-  unfold anchorStep
-  split
-  · exact ord_nil _ _
-  · exact ord_kids (List.Sublist.trans List.filter_sublist (deepKids_sublist n c))
+  apply ord_below
+  exact List.Sublist.trans (flatMap_sublist_of_sublist sub List.filter_sublist) (anchorKids_sub a n c)
 
 variable {mt : Matcher} {dsc : Desc}
 
